@@ -350,7 +350,7 @@ def generate(rng, tier):
     out += fam_two_columns(thorough)
     out += fam_self(thorough)
     out += fam_chain(thorough)
-    ngraphs = 330 if not thorough else 6000
+    ngraphs = 330 if not thorough else 3000
     k = 0
     for g in range(ngraphs):
         classes, ends = random_graph(rng)
@@ -654,9 +654,77 @@ def oracle(c, o):
         'actual': {'out': o['out'], 'tabs': o['tabs'], 'links': o['links'], 'gets': o['gets']}}
 
 
+class _Refused(Exception):
+    pass
+
+
+def simulate(c):
+    """What the UNCHANGED destroySelf does (the algorithm of Model/Cascade.v `destroy`, re-stated in
+    Python).  Used by `classify` only: an oracle failure counts as a known finding only if the
+    observation is exactly what the known algorithm produces, so that any other behaviour change
+    in the same trigger class is still reported with its concrete input."""
+    classes = c['classes']
+    tabs = [[[r[0], list(r[1])] for r in rs] for rs in c['rows']]
+    links = [[list(l) for l in ls] for ls in c['links']]
+
+    def destroy(T, x, depth):
+        if depth > 40:
+            raise RecursionError()
+        for (o, tb, side) in classes[T]['joins']:
+            links[tb] = [l for l in links[tb] if l[1 if side else 0] != x]
+        for k, cd in enumerate(classes):
+            if not (any(t == T and p != 'O' for t, p in cd['fks']) or any(o == T for o, _, _ in cd['joins'])):
+                continue
+            for (o, tb, side) in cd['joins']:
+                if o == T:
+                    links[tb] = [l for l in links[tb] if l[0 if side else 1] != x]
+            cols = [j for j, (t, p) in enumerate(cd['fks']) if t == T and p != 'O']
+            if not cols:
+                continue
+
+            def matching():
+                return [r for r in tabs[k] if any(r[1][j] is not None and r[1][j] == x for j in cols)]
+            if any(cd['fks'][j][1] == 'R' for j in cols) and matching():
+                raise _Refused()
+            if any(cd['fks'][j][1] == 'N' for j in cols):
+                for r in matching():
+                    for j in cols:
+                        if cd['fks'][j][1] == 'N' and r[1][j] == x:
+                            r[1][j] = None
+            if any(cd['fks'][j][1] == 'C' for j in cols):
+                for rid in [r[0] for r in matching()]:
+                    destroy(k, rid, depth + 1)
+        tabs[T] = [r for r in tabs[T] if r[0] != x]
+    try:
+        destroy(c['victim'][0], c['victim'][1], 0)
+        out = 'ok'
+    except _Refused:
+        out = 'SQLObjectIntegrityError'
+    except RecursionError:
+        return {'out': 'RecursionError'}
+    held = set(held_nodes(c))
+    gets = []
+    for k, rs in enumerate(c['rows']):
+        present = {r[0] for r in tabs[k]}
+        gets.append([(r[0] in present) or (not c['cache'] and (k, r[0]) in held) for r in rs])
+    return {'out': out, 'tabs': tabs, 'links': links, 'found': gets}
+
+
+def same_as_unchanged_code(c, o):
+    sim = simulate(c)
+    if sim['out'] != o['out']:
+        return False
+    if sim['out'] == 'RecursionError':
+        return True
+    return (sim['tabs'] == o['tabs'] and sim['links'] == o['links'] and
+            sim['found'] == [[g != 'NotFound' for g in gs] for gs in o['gets']])
+
+
 def explain_deviations(c, o, f):
     """finding ids that together account for every deviation, or None"""
     if not victim_exists(c):
+        return None
+    if not same_as_unchanged_code(c, o):
         return None
     sp = spec_of(c)
     D = {tuple(d) for d in sp['D']}
